@@ -61,7 +61,7 @@ def requirements(tier):
         "sweep:days": 2000, "conv:pairs": 100000, "conv:near-midnight": 300, "arith:laws": 8000,
         "order:same-instant-pairs": 5000, "order:distinct-pairs": 2000, "range:forward": 1500, "range:backward": 1500,
         "range:inclusive": 500, "policy:where:just-after": 8, "policy:where:just-before": 3, "policy:pass": 10, "policy:warning": 10, "policy:error": 10, "policy:invalid": 10,
-        "policy:inside-table": 10,
+        "policy:inside-table": 10, "sweep:first-or-last-days-of-the-tables": 4, "conv:date-reached-by-arithmetic": 3000,
     }
     for a in ts.SCALES:
         for b in ts.SCALES:
@@ -148,8 +148,11 @@ def case_sweep(ctx, job, idx, rng, st):
     tb = tables()
     mjd = env.EOP_MJD_MIN + idx
     leap_neighbour = any(abs(mjd - l) <= 1 for l in tb.leap_mjds())
-    if idx % job["stride"] != 0 and not leap_neighbour:
+    edge = mjd in (env.EOP_MJD_MIN, env.EOP_MJD_MIN + 1, env.EOP_MJD_MAX - 1, env.EOP_MJD_MAX)  # "for every day of the tables": their first and last days
+    if idx % job["stride"] != 0 and not leap_neighbour and not edge:
         return
+    if edge:
+        ctx.count("sweep:first-or-last-days-of-the-tables")
     rec = tb.record(mjd)
     ctx.case({"mjd": mjd})
     ctx.count("sweep:days")
@@ -202,6 +205,24 @@ def case_conversions(ctx, job, idx, rng, st):
     dates = {}
     for s in ts.SCALES:
         dates[s] = Date(clocks[s][0], scale=s)
+    if idx % 3 == 0:
+        # history: the dates are not freshly built from their reading but reached by arithmetic (an earlier date of the same
+        # scale plus a few hours, forwards or backwards, inside or across the day): the same reading in the same scale is the
+        # same date, and it is that object which goes through the conversions below
+        for s in ts.SCALES:
+            shift = dt.timedelta(microseconds=rng.randint(-20 * 3600 * 10 ** 6, 20 * 3600 * 10 ** 6))
+            try:
+                made = (Date(clocks[s][0] - shift, scale=s) + shift) if rng.random() < 0.7 else (Date(clocks[s][0] + shift, scale=s) - shift)
+            except Exception as exc:
+                ctx.violation("C03/arith-raises", {"scale": s, "clock": clocks[s][0].isoformat(), "shift_us": us(shift), "exc": repr(exc)}, repr(exc))
+                continue
+            delta = (made - dates[s]).total_seconds()
+            ctx.count("conv:date-reached-by-arithmetic")
+            ctx.resid("conv:date-reached-by-arithmetic vs same reading (s)", abs(delta), 0.0 if s in ts.ATOMIC else 1e-6 + 1e-9,
+                      key=f"C03/date-reached-by-arithmetic-is-not-the-date-of-its-reading-{s}",
+                      witness={"scale": s, "clock": clocks[s][0].isoformat(), "shift_us": us(shift), "delta": delta, "reading_of_result": made.datetime.isoformat()},
+                      msg=f"{s}: a date reached by +- {shift} denotes an instant {delta!r} s away from the date built from the same reading")
+            dates[s] = made
     base = dates["UTC"]
     for s1 in ts.SCALES:
         d1 = dates[s1]
